@@ -244,6 +244,13 @@ func (ex *Exec) execInstr(b *ssa.BasicBlock, st *State, in ssa.Instruction) {
 			lo = IntLit(-1)
 		}
 		vc.assume(st.guard, And(Ge(idx, lo), Lt(idx, IntLit(int64(n)))))
+		// a case on a nil channel is never chosen (language semantics: it blocks forever)
+		for k, s := range in.States {
+			cv := ex.val(st, s.Chan)
+			if cv.sort == SInt {
+				vc.assume(st.guard, Imp(Eq(idx, IntLit(int64(k))), Not(Eq(cv, vc.zero(s.Chan.Type())))))
+			}
+		}
 		tup := []T{idx, vc.fresh("select.ok", SBool)}
 		for _, s := range in.States {
 			if s.Dir == types.RecvOnly {
@@ -254,6 +261,8 @@ func (ex *Exec) execInstr(b *ssa.BasicBlock, st *State, in ssa.Instruction) {
 			}
 		}
 		ex.tuples[in] = tup
+		st.ghost["sel:idx"] = idx
+		st.ghost["sel:ok"] = tup[1]
 		if !in.Blocking && ex.con != nil && ex.con.ChanEvents {
 			// a non-blocking select that falls to `default` has observed its data channels empty (or full for sends)
 			hasDataRecv := false
